@@ -236,6 +236,10 @@ class Scenario:
                 # names that are not ASCII / not even valid UTF-8 (a Latin-1 byte, a lone continuation byte)
                 for raw in rng.sample([b'caf\xe9.txt', 'na\u00efve \u6f22\u5b57.bin'.encode(), b'track-\xed\xb2\x80.dat', b'x\x80y'], 2):
                     Path(os.fsdecode(os.fsencode(str(d)) + b'/' + raw)).write_bytes(content())
+            if rng.random() < 0.5:
+                # names that mean something to the tool's own storage layer (temporary suffix, area names): in a SOURCE tree they are files
+                for nm in rng.sample(['.tmp', 'swap.tmp', 'a.tmp.txt', 'config', 'data', 'snapshots'], 3):
+                    (d / nm).write_bytes(content())
             if rng.random() < 0.4:
                 (d / 'sub' / 'deep').mkdir(parents=True)
                 (d / 'sub' / 'deep' / 'g').write_bytes(content())
